@@ -83,4 +83,28 @@ def m2qAgent (floor : Rat) (vals : Nat → Rat) (p : Nat) : Nat → Rat :=
 
 def m2qQueries (p : Nat) : List Nat := [0, p]
 
+/-- lambda-PRV asks every voter about the `lam` best-ranked alternatives: ranking positions `0 … lam-1` -/
+def prvQueries (lam : Nat) : List Nat := List.range lam
+
+/-- lambda-PRV, one voter in ranking-position space: the elicited value on the `lam` best-ranked positions,
+nothing elsewhere (the score of an alternative is the sum of these contributions) -/
+def prvAgent (vals : Nat → Rat) (lam : Nat) : Nat → Rat := fun q => if q < lam then vals q else 0
+
+/-- `np.max` of a score vector (0 for the empty vector, which the code never passes) -/
+def maxL : List Rat → Rat
+  | [] => 0
+  | [x] => x
+  | x :: y :: ys => if x ≤ maxL (y :: ys) then maxL (y :: ys) else x
+
+/-- `np.min` -/
+def minL : List Rat → Rat
+  | [] => 0
+  | [x] => x
+  | x :: y :: ys => if minL (y :: ys) ≤ x then minL (y :: ys) else x
+
+/-- `distortion(choice, vp)`: `scores` = social welfare of every alternative, `chosen` = the chosen
+alternatives (0-indexed; a single choice is the one-element list): `max(score) / min(score[chosen])` -/
+def distortionOf (scores : List Rat) (chosen : List Nat) : Rat :=
+  maxL scores / minL (chosen.map (fun c => scores.getD c 0))
+
 end Elicit
